@@ -80,7 +80,7 @@ Lemma guard_ok s tokens si sj ei ej bs be : Inv0 s ->
        | None => false
        | Some (hb, hi) =>
          negb (pair_le (Z.of_nat si, Z.of_nat sj) (b_index (bget (s_heap s) hb), hi) &&
-               pair_le (b_index (bget (s_heap s) hb), hi) (Z.of_nat ei, Z.of_nat ej))
+               pair_lt (b_index (bget (s_heap s) hb), hi) (Z.of_nat ei, Z.of_nat ej))
        end) tokens = false.
 Proof.
   intros I Hbs Hbe Lsj Lej F Hv. apply existsb_false. intros t Ht. fold (hnd s t).
@@ -93,7 +93,7 @@ Proof.
   pose proof (in_range_idx _ _ _ _ _ (g_ndt _ _ I) Hk Hr) as Hrange.
   destruct (flat_pos_lex (toks s) (s_blocks s) i b j si sj ei ej be Hb (nth_error_in_len _ _ _ Htj) Hbe Lej) as [L1 L2].
   { cbv zeta. subst F. cbv beta in *. lia. }
-  unfold pair_le. cbn [fst snd]. lia.
+  unfold pair_le, pair_lt. cbn [fst snd]. lia.
 Qed.
 
 Lemma InvG_with_len X s n : InvG X s -> InvG X (with_len s n).
